@@ -224,7 +224,9 @@ def _check(ctx: Ctx) -> None:
                 if isinstance(recv, ast.Name) and recv.id == "self" and name in ("normalise", "quantise_and_normalise"):
                     guard = next((a for a in ancestors(n) if isinstance(a, ast.If)), None)
                     norm_calls.append((n, guard))
-        ok = bool(norm_calls) and all(g is not None and isinstance(g.test, ast.Name) and g.test.id == shifted_var for _, g in norm_calls)
+        from ..astutil import extra_conditions
+        ok = bool(norm_calls) and all(g is not None and isinstance(g.test, ast.Name) and g.test.id == shifted_var and not extra_conditions(n_, g.test)
+                                      for n_, g in norm_calls)
         ctx.check(ok, "DELEG", "Sequence.transpose re-normalises iff notes were moved by octaves", function=st.qualname,
                   construct="re-normalisation after transposition is missing or not tied to the octave flag",
                   message="octave-wrapped notes can overlap existing ones; normalise() must run exactly then (and not otherwise, "
